@@ -13,9 +13,10 @@ assumption for `read`, `write`, `close` of both transports and for opening the s
 libusb1 error only `IOError` (`OSError`) leaves them.  For `USB.open` / `USB.__init__` the assumption of
 `device.connect` (`transport.USB: [OSError]`) does NOT hold of the code: `usb_open_raises_usberror`.
 
-Outside this analysis by construction (docs/exc_flow.md section 2): the `IndexError` of `frame[3]` / `frame[5]` /
-`frame[6]` in `TTY.read` on a line that runs dry (`read_short_index_counterexample` of
-`Props/FnBridgeTransport.lean`).
+Outside this analysis by construction (docs/exc_flow.md section 2): implicit raises of data operations.  For `TTY.read`
+that was the `IndexError` of `frame[3]` / `frame[5]` / `frame[6]` on a line that runs dry (finding
+`tty-short-read-internal-error`, repaired by fixes/C13/0004; the function-translator group Transport proves of the
+repaired source that the index expressions cannot fail: `FnBridge.Transport.read_errors`).
 -/
 namespace NfcVerif.ExcFlowProps
 open NfcVerif.ExcFlow NfcVerif.Gen.ClassTree NfcVerif.Gen.ExcFlow
